@@ -121,23 +121,40 @@ func (c kvClient) DeleteRange(ctx context.Context, in *pb.DeleteRangeRequest, _ 
 	return resp, nil
 }
 
+// firstTxnKey labels a transaction by the smallest key it mentions (the repository builds
+// multi-key transactions from Go maps, so positional order is not stable between runs).
 func firstTxnKey(t *pb.TxnRequest) string {
-	for _, c := range t.Compare {
-		return string(c.Key)
+	best := ""
+	take := func(k []byte) {
+		if len(k) == 0 {
+			return
+		}
+		if best == "" || string(k) < best {
+			best = string(k)
+		}
 	}
-	for _, branch := range [][]*pb.RequestOp{t.Success, t.Failure} {
-		for _, op := range branch {
-			switch x := op.Request.(type) {
-			case *pb.RequestOp_RequestPut:
-				return string(x.RequestPut.Key)
-			case *pb.RequestOp_RequestRange:
-				return string(x.RequestRange.Key)
-			case *pb.RequestOp_RequestDeleteRange:
-				return string(x.RequestDeleteRange.Key)
+	var walk func(t *pb.TxnRequest)
+	walk = func(t *pb.TxnRequest) {
+		for _, c := range t.Compare {
+			take(c.Key)
+		}
+		for _, branch := range [][]*pb.RequestOp{t.Success, t.Failure} {
+			for _, op := range branch {
+				switch x := op.Request.(type) {
+				case *pb.RequestOp_RequestPut:
+					take(x.RequestPut.Key)
+				case *pb.RequestOp_RequestRange:
+					take(x.RequestRange.Key)
+				case *pb.RequestOp_RequestDeleteRange:
+					take(x.RequestDeleteRange.Key)
+				case *pb.RequestOp_RequestTxn:
+					walk(x.RequestTxn)
+				}
 			}
 		}
 	}
-	return ""
+	walk(t)
+	return best
 }
 
 func (c kvClient) Txn(ctx context.Context, in *pb.TxnRequest, _ ...grpc.CallOption) (*pb.TxnResponse, error) {
